@@ -92,7 +92,22 @@ type c31Chain struct {
 	calls   int
 	trace   []string
 	grown   int
+	failAt  int // ordinal (0-based) of the query that fails with a transient error; <0: none
+	faulted int
 }
+
+// faultNow must be called with the lock held at the start of a query: it
+// makes the query with the scripted ordinal fail.
+func (c *c31Chain) faultNow(what string) bool {
+	if c.failAt >= 0 && c.calls == c.failAt {
+		c.faulted++
+		c.answered(what + ": scripted transient failure")
+		return true
+	}
+	return false
+}
+
+var errC31Fault = fmt.Errorf("c31 chain: scripted transient failure")
 
 func (c *c31Chain) tip() uint { return c.base + uint(c.visible) - 1 }
 
@@ -134,6 +149,9 @@ func c31CloneTx(tx *Transaction) *Transaction {
 func (c *c31Chain) GetTransactionConfirmations(h Hash) (uint, error) {
 	c.mu.Lock()
 	defer c.mu.Unlock()
+	if c.faultNow("GetTransactionConfirmations") {
+		return 0, errC31Fault
+	}
 	loc, ok := c.index[h]
 	if !ok {
 		c.answered("confirmations: unknown tx")
@@ -152,6 +170,9 @@ func (c *c31Chain) GetTransactionConfirmations(h Hash) (uint, error) {
 func (c *c31Chain) GetTransaction(h Hash) (*Transaction, error) {
 	c.mu.Lock()
 	defer c.mu.Unlock()
+	if c.faultNow("GetTransaction") {
+		return nil, errC31Fault
+	}
 	loc, ok := c.index[h]
 	if !ok {
 		c.answered("tx: unknown")
@@ -164,6 +185,9 @@ func (c *c31Chain) GetTransaction(h Hash) (*Transaction, error) {
 func (c *c31Chain) GetLatestBlockHeight() (uint, error) {
 	c.mu.Lock()
 	defer c.mu.Unlock()
+	if c.faultNow("GetLatestBlockHeight") {
+		return 0, errC31Fault
+	}
 	t := c.tip()
 	c.answered(fmt.Sprintf("tip=%d", t))
 	return t, nil
@@ -172,6 +196,9 @@ func (c *c31Chain) GetLatestBlockHeight() (uint, error) {
 func (c *c31Chain) GetBlockHeader(height uint) (*BlockHeader, error) {
 	c.mu.Lock()
 	defer c.mu.Unlock()
+	if c.faultNow("GetBlockHeader") {
+		return nil, errC31Fault
+	}
 	if height < c.base || height > c.tip() {
 		c.answered(fmt.Sprintf("header(%d): no such block", height))
 		return nil, fmt.Errorf("c31 chain: no block at height %d", height)
@@ -184,6 +211,9 @@ func (c *c31Chain) GetBlockHeader(height uint) (*BlockHeader, error) {
 func (c *c31Chain) GetTransactionMerkleProof(h Hash, height uint) (*TransactionMerkleProof, error) {
 	c.mu.Lock()
 	defer c.mu.Unlock()
+	if c.faultNow("GetTransactionMerkleProof") {
+		return nil, errC31Fault
+	}
 	if height < c.base || height > c.tip() {
 		c.answered(fmt.Sprintf("merkle(%d): no such block", height))
 		return nil, fmt.Errorf("c31 chain: no block at height %d", height)
@@ -212,6 +242,9 @@ func (c *c31Chain) GetTransactionMerkleProof(h Hash, height uint) (*TransactionM
 func (c *c31Chain) GetCoinbaseTxHash(height uint) (Hash, error) {
 	c.mu.Lock()
 	defer c.mu.Unlock()
+	if c.faultNow("GetCoinbaseTxHash") {
+		return Hash{}, errC31Fault
+	}
 	if height < c.base || height > c.tip() {
 		c.answered(fmt.Sprintf("coinbase(%d): no such block", height))
 		return Hash{}, fmt.Errorf("c31 chain: no block at height %d", height)
@@ -372,7 +405,7 @@ func c31GenScenario(rng *rand.Rand, thorough bool) *c31Scenario {
 }
 
 func c31Build(s *c31Scenario, rng *rand.Rand) (*c31Chain, Hash) {
-	c := &c31Chain{base: s.Base, visible: s.Visible, index: map[Hash]c31Loc{}, growth: s.Growth}
+	c := &c31Chain{base: s.Base, visible: s.Visible, index: map[Hash]c31Loc{}, growth: s.Growth, failAt: -1}
 	var prev [32]byte
 	rng.Read(prev[:])
 	t := uint32(1_600_000_000 + rng.Intn(100_000_000))
@@ -582,4 +615,60 @@ func TestVerif_C31_SpvProof(t *testing.T) {
 	if r.Counter("proofs_verified") == 0 {
 		r.Inconclusive("no assembled proof was verified (every assembly failed): nothing decided")
 	}
+}
+
+// TestVerif_C31_SpvProofUnderFaults: every query of an assembly fails once,
+// in turn. The assembly may fail; a proof that comes back must still prove
+// the transaction.
+func TestVerif_C31_SpvProofUnderFaults(t *testing.T) {
+	r := verifkit.Start(t, "C31", "spvproof-faults")
+	defer r.Finish()
+	r.SetRule("the scenarios of the spvproof part, re-run once per query ordinal with that query failing with a transient error (every ordinal of the fault-free run). Outcome error: accepted. Outcome proof: must pass the independent verifier and start at the transaction's block. Non-trivial: the scripted failure was hit.")
+	n := r.N(500, 6000)
+	thorough := !r.Quick()
+	verifkit.Parallel(n, 0, func(i int) {
+		build := func(failAt int) (*c31Scenario, *c31Chain, Hash) {
+			rng := r.SubRand("scenario", i)
+			s := c31GenScenario(rng, thorough)
+			chain, target := c31Build(s, rng)
+			chain.failAt = failAt
+			return s, chain, target
+		}
+		s0, c0, t0 := build(-1)
+		if r.Guard("assemble-faults:", fmt.Sprintf("scenario#%d fault-free", i), func() { _, _, _ = AssembleSpvProof(t0, s0.Required, c0) }) {
+			return
+		}
+		for f := 0; f < c0.calls; f++ {
+			s, chain, target := build(f)
+			desc := fmt.Sprintf("scenario#%d %s | query %d fails", i, verifkit.JSON(s), f)
+			var tx *Transaction
+			var proof *SpvProof
+			var err error
+			if r.Guard("assemble-faults:", desc, func() { tx, proof, err = AssembleSpvProof(target, s.Required, chain) }) {
+				continue
+			}
+			r.Case(desc, chain.faulted > 0)
+			if chain.faulted > 0 {
+				r.Count("assemblies_with_the_failure_hit", 1)
+			}
+			if err != nil {
+				r.Count("assemblies_that_gave_up_with_error", 1)
+				continue
+			}
+			if chain.faulted > 0 {
+				r.Count("assemblies_that_returned_a_proof_despite_the_failure", 1)
+			}
+			if tx == nil || proof == nil {
+				r.Violation("faults:nil-result-without-error", "no error but a nil transaction/proof after a failed query", desc, strings.Join(chain.trace, "; "))
+				continue
+			}
+			problems := c31Verify(target, proof, s.Required)
+			if !s.Unknown && s.TxBlock < len(chain.blocks) && len(proof.BitcoinHeaders) >= 80 && string(proof.BitcoinHeaders[:80]) != string(chain.blocks[s.TxBlock].raw) {
+				problems = append(problems, c31Problem{"truth:first-header-not-tx-block", "first header is not the header of the transaction's block"})
+			}
+			for _, p := range problems {
+				r.Violation("faults:proof:"+p.fp, "after a failed query the assembly returned a proof: "+p.what, desc, map[string]interface{}{"queries": chain.trace, "headers_bytes": len(proof.BitcoinHeaders)})
+			}
+		}
+	})
 }
